@@ -34,3 +34,78 @@ UNITS = [
     Unit('C15_predicates', 'C15', [is_ut, is_lt], use=core.core_stubs(), types=core.TYPES, type_spec=core.TYPE_SPEC, spec=SPEC, preludes=PRE, broadcast=BC, level='L1',
          notes='is_upper_triangular / is_lower_triangular answer exactly "every entry below / above the diagonal is zero"'),
 ]
+
+# ---------------------------------------------------------------- evenly spaced grids, design matrix, diagonal
+GRID_SPEC = r'''
+pub open spec fn is_diag_of(a: Seq<f64>, n: int, d: Seq<f64>) -> bool { d.len() == n && forall|i: int| 0 <= i < n ==> #[trigger] d[i] == at2(a, n, i, i) }
+
+/// `x.ceil() as usize` for a non-negative x: the least integer >= x (assumed reading of f64::ceil and the cast, L1)
+#[verifier::external_body]
+pub broadcast proof fn ax_ceil_int(x: f64)
+    ensures rv(x) >= 0real ==> (#[trigger] f_to_int(f_ceil(x))) >= 0 && (f_to_int(f_ceil(x)) as real) >= rv(x) && (f_to_int(f_ceil(x)) as real) < rv(x) + 1real {}
+'''
+arange = Fn(U + 'arange', ret='r', level='L1', float_casts=(1,),
+            requires=['C15.arange.domain:: rv(step) != 0real && (rv(stop) - rv(start)) / rv(step) >= 0real && (rv(stop) - rv(start)) / rv(step) <= 0x7fff_ffff as real'],
+            ensures=['C15.arange.count:: (r.v@.len() as real) >= (rv(stop) - rv(start)) / rv(step) && (r.v@.len() as real) < (rv(stop) - rv(start)) / rv(step) + 1real',
+                     'C15.arange.values:: forall|i: int| 0 <= i < r.v@.len() ==> rv(#[trigger] r.v@[i]) == rv(start) + (i as real) * rv(step)'],
+            rewrites=[('start as f64 +', 'start +', 'R5b: `f64 as f64` is the identity'),
+                      ('(0..n as usize).map(', 'Vector { v: (0..n as usize).map(', 'R26'), ('.collect::<Vector>()', '.collect::<Vec<f64>>() }', 'R26 (second half)')],
+            closures={1: {'params': 'i: usize', 'ret': 'o: f64', 'ensures': ['o == f_add(start, f_mul(f_of_int(i as int), step))']}},
+            hints=[('Vector { v:', 'before', 'proof { ax_ceil_int(f_div(f_sub(stop, start), step)); }')])
+linspace = Fn(U + 'linspace', ret='r', level='L1',
+              requires=['C15.linspace.domain:: num >= 1'],
+              ensures=['C15.linspace.count:: r.v@.len() == num',
+                       'C15.linspace.single:: num == 1 ==> r.v@[0] == start',
+                       'C15.linspace.values:: num >= 2 ==> forall|i: int| 0 <= i < num ==> rv(#[trigger] r.v@[i]) == rv(start) + (i as real) * ((rv(stop) - rv(start)) / ((num - 1) as real))'],
+              rewrites=[('(0..num).map(', 'Vector { v: (0..num).map(', 'R26'), ('.collect::<Vector>()', '.collect::<Vec<f64>>() }', 'R26 (second half)')],
+              closures={1: {'params': 'i: usize', 'ret': 'o: f64', 'ensures': ['o == f_add(start, f_mul(f_of_int(i as int), width))']}})
+diag_u = Fn(U + 'diag', ret='r', level='L0', valid='(exists|k: int| 0 <= k && #[trigger] (k * k) == a@.len())', panics={1: 'REJECT'},
+            rewrites=[('is_square(a).unwrap()', 'match is_square(a) { Ok(v_) => v_, Err(_) => ::core::panicking::panic("unwrap") }', 'R2b')],
+            requires=['C15.diag.machine:: a@.len() <= 0x7fff_ffff'],
+            ensures=['C15.diag.valid:: (exists|k: int| 0 <= k && #[trigger] (k * k) == a@.len())',
+                     'C15.diag.entries:: forall|n: int| 0 <= n && n * n == a@.len() ==> #[trigger] is_diag_of(a@, n, r.v@)'],
+            loops={1: {'invariant': ['n * n == a@.len()', 'a@.len() <= 0x7fff_ffff', 'results.v@.len() == i',
+                                     'C15.diag.prefix:: forall|q: int| 0 <= q < i ==> #[trigger] results.v@[q] == at2(a@, n as int, q, q)'],
+                       'body_start': 'lemma_idx(i as int, i as int, n as int, n as int);'}},
+            hints=[('\n            results\n', 'replace', '\n proof { lemma_sq_unique(n as int, a@.len() as int); }\n results\n')])
+from contracts import C01 as c01
+UNITS.append(Unit('C15_grids', 'C15', [arange, linspace, diag_u], use=core.core_stubs() + [c01.is_square], types=core.TYPES, type_spec=core.TYPE_SPEC, spec=SPEC + GRID_SPEC + c01.SQ_UNIQUE, preludes=PRE, broadcast=BC, level='L1',
+                  fingerprints=[(VEC + '{impl FromIterator<f64> for Vector}::from_iter', '{ Self { v: Vec::from_iter(iter) } }')],
+                  notes='arange: ceil((stop-start)/step) values start + i*step (half-open convention); linspace: num values start + i*(stop-start)/(num-1) (both ends included), a single value is start; '
+                        'diag (slice): the diagonal entries in order'))
+
+from contracts import C01solve as s1
+DESIGN_SPEC = r'''
+/// first column all ones (within machine epsilon): the definition is_design tests
+pub open spec fn design_def(m: Seq<f64>, nrows: int, ncols: int) -> bool {
+    forall|i: int| 0 <= i < nrows ==> r_abs(rv(#[trigger] at2(m, ncols, i, 0)) - 1real) <= r_eps()
+}
+'''
+design = Fn(U + 'design', ret='r', level='L1', valid='(x@.len() as int) % (rows as int) == 0', rej_clause=True,
+            requires=['C15.design.machine:: rows > 0 && rows + x@.len() <= 0x7fff_ffff'],
+            ensures=['C15.design.valid:: (x@.len() as int) % (rows as int) == 0',
+                     'C15.design.shape:: r@.len() == rows + x@.len()',
+                     'C15.design.ones:: forall|i: int| 0 <= i < rows ==> rv(#[trigger] at2(r@, 1 + (x@.len() as int) / (rows as int), i, 0)) == 1real',
+                     'C15.design.data:: forall|i: int, c: int| 0 <= i < rows && 0 <= c < (x@.len() as int) / (rows as int) ==> #[trigger] at2(r@, 1 + (x@.len() as int) / (rows as int), i, 1 + c) == at2(x@, rows as int, c, i)'],
+            hints=[('col_to_row_major(&ones, rows)', 'replace',
+                    '({ let ghost w_ = (x@.len() as int) / (rows as int); proof { lemma_div_facts(x@.len() as int, rows as int); '
+                    'if (x@.len() as int) % (rows as int) == 0 { assert((rows + x@.len()) as int == (1 + w_) * rows) by(nonlinear_arith) requires x@.len() == w_ * rows; lemma_mul_div(rows as int, 1 + w_); } '
+                    'else { vstd::arithmetic::div_mod::lemma_mod_adds(rows as int, x@.len() as int, rows as int); vstd::arithmetic::div_mod::lemma_mod_self_0(rows as int); } } '
+                    'let r_ = col_to_row_major(&ones, rows); proof { '
+                    'assert forall|i: int| 0 <= i < rows implies rv(#[trigger] at2(r_@, 1 + w_, i, 0)) == 1real by { lemma_idx(0, i, 1 + w_, rows as int); assert(at2(ones@, rows as int, 0, i) == at2(r_@, 1 + w_, i, 0)); } '
+                    'assert forall|i: int, c: int| 0 <= i < rows && 0 <= c < w_ implies #[trigger] at2(r_@, 1 + w_, i, 1 + c) == at2(x@, rows as int, c, i) by '
+                    '{ lemma_idx(1 + c, i, 1 + w_, rows as int); lemma_idx(c, i, w_, rows as int); assert(at2(ones@, rows as int, 1 + c, i) == at2(r_@, 1 + w_, i, 1 + c)); '
+                    'assert((1 + c) * rows + i == rows + (c * rows + i)) by(nonlinear_arith); } } r_ })')])
+is_design = Fn(U + 'is_design', ret='r', level='L1', valid='(m@.len() as int) % (nrows as int) == 0', panics={1: 'REJECT'},
+               rewrites=[('is_matrix(m, nrows).unwrap()', 'match is_matrix(m, nrows) { Ok(v_) => v_, Err(_) => ::core::panicking::panic("unwrap") }', 'R2b')],
+               requires=['C15.is_design.machine:: nrows > 0 && m@.len() <= 0x7fff_ffff && m@.len() > 0'],
+               ensures=['C15.is_design.valid:: (m@.len() as int) % (nrows as int) == 0',
+                        'C15.is_design.def:: r == design_def(m@, nrows as int, (m@.len() as int) / (nrows as int))'],
+               loops={1: {'invariant': ['nrows * ncols == m@.len()', 'ncols == (m@.len() as int) / (nrows as int)', 'ncols > 0', 'm@.len() <= 0x7fff_ffff',
+                                        'C15.is_design.prefix:: is_design ==> (forall|q: int| 0 <= q < i ==> r_abs(rv(#[trigger] at2(m@, ncols as int, q, 0)) - 1real) <= r_eps())',
+                                        'C15.is_design.witness:: !is_design ==> 0 <= bad_ < i && !(r_abs(rv(at2(m@, ncols as int, bad_, 0)) - 1real) <= r_eps())'],
+                          'body_start': 'lemma_idx(i as int, 0, nrows as int, ncols as int);'}},
+               hints=[('for i in 0..nrows', 'before', 'let ghost mut bad_: int = -1; proof { lemma_mul_div(nrows as int, ncols as int); assert(ncols > 0) by { if ncols == 0 { assert(nrows * 0 == 0); } } }'),
+                      ('is_design = false;', 'post', ' proof { bad_ = i as int; }')])
+UNITS.append(Unit('C15_design', 'C15', [design, is_design], use=core.core_stubs() + [c15.is_matrix, s1.c2r], types=core.TYPES, type_spec=core.TYPE_SPEC, spec=SPEC + DESIGN_SPEC, preludes=PRE, broadcast=BC, level='L1',
+                  notes='design: a column of ones in front of the (column-major) data, returned row-major; is_design: first column equal to one within machine epsilon'))
